@@ -343,3 +343,48 @@ Proof.
   exists (fun _ _ => (188%Z, None)), [(repeat 1%N 94, None); (repeat 2%N 94, None)].
   split; [reflexivity|]. vm_compute. repeat split.
 Qed.
+
+(* ---- whatever the wrapped writer does: what it is given is a prefix of the chunks, in order ---- *)
+Lemma rf_spec_prefix w tl e : forall cs n k calls,
+  exists n' e' j, rf_spec w cs tl e n k calls = (n', e', calls ++ firstn j cs).
+Proof.
+  induction cs as [|c cs IH]; intros n k calls.
+  - exists n, (if (e =? E.EOF)%N then match tl with [] => None | _ => Some E.InvalidPacketLength end else Some e), 0.
+    cbn [rf_spec firstn]. rewrite app_nil_r. reflexivity.
+  - cbn [rf_spec]. destruct (w k c) as [nw [x|]].
+    + eexists _, _, 1. cbn [firstn]. reflexivity.
+    + destruct (negb (nw =? 188)%Z).
+      * eexists _, _, 1. cbn [firstn]. reflexivity.
+      * destruct (IH (if (0 <? nw)%Z then (n + nw)%Z else n) (S k) (calls ++ [c])) as [n' [e' [j H]]].
+        exists n', e', (S j). rewrite H. cbn [firstn]. rewrite <- app_assoc. reflexivity.
+Qed.
+
+Lemma read_from_prefix w pkt s : length pkt = PacketSize ->
+  exists n e j, read_from w pkt s = Ok (n, e, firstn j (full_chunks (script_data s))).
+Proof.
+  intro Hp. rewrite read_from_general by exact Hp.
+  destruct (rf_spec_prefix w (tail (script_data s)) (norm_err (script_err s))
+              (full_chunks (script_data s)) 0%Z 0 []) as [n [e [j H]]].
+  exists n, e, j. rewrite H. reflexivity.
+Qed.
+
+Lemma w_spec_prefix w plen : forall cs n k calls,
+  exists n' e' j, w_spec w cs n k calls plen = (n', e', calls ++ firstn j cs).
+Proof.
+  induction cs as [|c cs IH]; intros n k calls.
+  - eexists _, _, 0. cbn [w_spec firstn]. rewrite app_nil_r. reflexivity.
+  - cbn [w_spec]. destruct (w k c) as [m [x|]].
+    + eexists _, _, 1. cbn [firstn]. reflexivity.
+    + destruct (IH (n + m)%Z (S k) (calls ++ [c])) as [n' [e' [j H]]].
+      exists n', e', (S j). rewrite H. cbn [firstn]. rewrite <- app_assoc. reflexivity.
+Qed.
+
+Lemma write_prefix w pkt p : length pkt = PacketSize ->
+  exists n e j, write w pkt p = Ok (n, e, firstn j (full_chunks p)).
+Proof.
+  intro Hp. destruct (Nat.eq_dec (length p mod IOSpec.PacketSize) 0) as [Hm|Hm].
+  - rewrite write_spec by assumption.
+    destruct (w_spec_prefix w (zlen p) (full_chunks p) 0%Z 0 []) as [n [e [j H]]].
+    exists n, e, j. rewrite H. reflexivity.
+  - rewrite write_bad_len by assumption. exists 0%Z, (Some E.InvalidPacketLength), 0. reflexivity.
+Qed.
